@@ -1,24 +1,43 @@
 #!/bin/bash
-# MANIFEST.setup_cmd: build the Coq development (full .vo build), extract the models, build the OCaml driver.
-set -e
+# MANIFEST.setup_cmd:  ./setup.sh            build everything that is claimed (harness/manifest/Cxx.json exists)
+#                      ./setup.sh C09 C12    build only these properties (used by ./check and during development)
+# Per property: full .vo build of coq/Props/Cxx.v and coq/Entry/Cxx.v with their dependencies, extraction of
+# entry_Cxx (ExtrOcamlBasic only) to ocaml/gen/Cxx/model.ml, OCaml driver ocaml/driver_Cxx.
 cd "$(dirname "$0")"
 ROOT=$(pwd)
 export PATH=/usr/bin:$PATH
-# gate: no axioms / admits / switched-off checks anywhere in the development
+exec 9> "$ROOT/.buildlock"; flock 9
 if grep -rnE 'Admitted|admit\.|^\s*Axiom |^\s*Parameter |^\s*Conjecture |Unset Guard|bypass_check|type-in-type|impredicative-set|Admit Obligations' coq --include='*.v'; then
   echo "setup: forbidden construct in coq/" >&2; exit 2
 fi
+if [ $# -gt 0 ]; then PROPS="$*"; else PROPS=$(ls harness/manifest 2>/dev/null | sed 's/\.json$//' | tr '\n' ' '); fi
 cd "$ROOT/coq"
-find . -name '*.v' ! -path './Extract/*' | sed 's|^\./||' | sort > .files
-( cat _CoqProject.base; cat .files ) > _CoqProject
-coq_makefile -f _CoqProject -o Makefile.coq > /dev/null
-timeout 3000 make -f Makefile.coq -j16 2>&1 | grep -v '^COQDEP\|^COQC\|conda' || true
-# every file must have produced its .vo
-for f in $(cat .files); do test -f "${f%.v}.vo" || { echo "setup: $f did not compile" >&2; exit 3; }; done
-mkdir -p "$ROOT/ocaml/gen"
-cd "$ROOT/ocaml/gen"
-timeout 600 coqc -Q "$ROOT/coq" SG "$ROOT/coq/Extract/Extract.v" > /dev/null
-rm -f "$ROOT"/coq/Extract/*.vo "$ROOT"/coq/Extract/*.glob "$ROOT"/coq/Extract/.*.aux
-cp "$ROOT/ocaml/driver.ml" .
-ocamlfind ocamlopt -O3 -w -a model.mli model.ml driver.ml -o "$ROOT/ocaml/driver" 2>/dev/null || ocamlfind ocamlopt -w -a model.mli model.ml driver.ml -o "$ROOT/ocaml/driver"
-echo "setup: ok"
+find . -name '*.v' | sed 's|^\./||' | sort > .files.new
+if ! cmp -s .files.new .files || [ ! -f Makefile.coq ]; then
+  mv .files.new .files
+  ( cat _CoqProject.base; cat .files ) > _CoqProject
+  coq_makefile -f _CoqProject -o Makefile.coq > /dev/null
+fi
+TARGETS=""
+for p in $PROPS; do
+  [ -f Props/$p.v ] && TARGETS="$TARGETS Props/$p.vo"
+  [ -f Entry/$p.v ] && TARGETS="$TARGETS Entry/$p.vo"
+done
+rc=0
+if [ -n "$TARGETS" ]; then
+  timeout 3000 make -f Makefile.coq -k -j16 $TARGETS 2>&1 | grep -v '^COQDEP\|^COQC\|conda\|^make' | tail -40
+  for t in $TARGETS; do test -f "$t" || { echo "setup: $t did not build" >&2; rc=3; }; done
+fi
+for p in $PROPS; do
+  [ -f Entry/$p.vo ] || continue
+  G="$ROOT/ocaml/gen/$p"; mkdir -p "$G"
+  if [ ! -x "$ROOT/ocaml/driver_$p" ] || [ Entry/$p.vo -nt "$ROOT/ocaml/driver_$p" ] || [ "$ROOT/ocaml/driver.ml" -nt "$ROOT/ocaml/driver_$p" ]; then
+    ( cd "$G" && printf 'Require Extraction.\nRequire Import ExtrOcamlBasic.\nFrom SG Require Import Base.Sx Entry.%s.\nExtraction Language OCaml.\nExtraction "model.ml" %s.entry_%s.\n' $p $p $p > extract.v \
+      && timeout 900 coqc -Q "$ROOT/coq" SG extract.v > /dev/null \
+      && sed "s/dispatch prop sub a/entry_$p sub a/" "$ROOT/ocaml/driver.ml" > driver.ml \
+      && ocamlfind ocamlopt -O3 -w -a model.mli model.ml driver.ml -o "$ROOT/ocaml/driver_$p" 2>/dev/null ) \
+      || { echo "setup: driver for $p did not build" >&2; rc=4; }
+  fi
+done
+[ $rc -eq 0 ] && echo "setup: ok ($PROPS)"
+exit $rc
